@@ -262,7 +262,7 @@ def is_number(number, xl_return=True, bool_return=False):
         return False
     else:
         try:
-            float(number)
+            _float(number)  # Not python-only spellings (e.g., 'inf', '1_0').
         except (ValueError, TypeError):
             return False
     return True
@@ -273,7 +273,7 @@ def _text2num(value):
         value = value.tolist()
     if not isinstance(value, Error) and isinstance(value, str):
         try:
-            return float(value)
+            return _float(value)  # Not python-only spellings (e.g., '1_0').
         except (ValueError, TypeError):
             from .date import xdate, _text2datetime
             try:
